@@ -37,6 +37,8 @@ CLASS_HOME = {
     'ArmijoGoldsteinLS': 'openmdao/solvers/linesearch/backtracking.py',
     'EQConstraintComp': 'openmdao/components/eq_constraint_comp.py',
     'Group': 'openmdao/core/group.py',
+    'InterpND': 'openmdao/components/interp_util/interp.py',
+    'Interp1DSlinear': 'openmdao/components/interp_util/interp_slinear.py',
     'BalanceComp': 'openmdao/components/balance_comp.py',
     'DotProductComp': 'openmdao/components/dot_product_comp.py',
     'VectorMagnitudeComp': 'openmdao/components/vector_magnitude_comp.py',
@@ -67,6 +69,8 @@ PROPERTY_MODULES = {
     'C11': ['contracts.c11_assembled'],
     'C26': ['contracts.c26_components'],
     'C32': ['contracts.c32_order'],
+    'C15': ['contracts.c15_interp'],
+    'C16': ['contracts.c15_interp'],
 }
 
 # modules whose contracts may be used as callee contracts by any property
@@ -441,3 +445,39 @@ LEVELS['C32'] = 'exploration'
 GAPS['C32'] = ['get_sccs_topo / get_out_of_order_nodes / Group._set_auto_order / System.set_order (networkx SCCs, sets, sorted with key functions): outside pyvc\'s subset, BOUNDED exhaustive tier only',
                'models with more than 4 subsystems per group; groups with implicit (promotion-based) connections, auto-IVC sources, nested cycles',
                'parallel groups / MPI']
+
+
+def _interp_extra(prop):
+    def extra(tier, seed, native_run):
+        out = {'violations': [], 'errors': []}
+        r = _run_bounded('c15_interp.py', [prop, tier], timeout=6000)
+        if 'error' in r:
+            out['errors'].append('bounded interpolation tier could not run: ' + r['error'])
+            return out
+        if prop == 'C15':
+            note = ('BOUNDED stand-in (not counted in obligations): InterpND on enumerated grids; node exactness, reproduction of the polynomial degree each method is exact for, '
+                    'fixed-dimension variants vs general methods (vectorized and one-point paths), OutOfBoundsError exactly outside the grid, histories of one-point calls on one interpolant vs a fresh interpolant')
+            bound = ('axes {all-negative, ending at 0, starting at 0, mixed sign, positive, 4-point} (non-uniform spacing), dims 1-3 (%s), methods slinear/lagrange2/lagrange3/akima/cubic/scipy_* and every 1D-/2D-/3D- variant'
+                     % ('all axis pairs, 3 triples' if tier != 'quick' else 'every third axis pair, 2 triples'))
+        else:
+            note = ('BOUNDED stand-in (not counted in obligations): d/dx vs complex step (central differences for scipy/akima) of the returned value at points away from cell boundaries incl. extrapolated points, '
+                    'd/dvalues through MetaModelStructuredComp(training_data_gradients=True): value == sum(d_dvalues * table), unit-table responses (central differences for akima), spline mode (InterpND.evaluate_spline) incl. bsplines')
+            bound = 'axes as for C15 plus 2-/3-point axes that force per-dimension order reduction of the scipy splines; dims 1-3; all methods'
+        out['bounded_interpolation'] = {'note': note, 'bound': bound, 'evaluations': r['evaluations'], 'distinct_nontrivial': r['distinct_nontrivial'], 'exhaustive': True,
+                                        'failures': r['n_failures'], 'samples': r['samples'],
+                                        'requests_that_raised_no_derivative_returned': r.get('raised_no_derivative_returned'), 'raised_examples': r.get('raised_examples')}
+        for f in r['failures'][:3]:
+            out['violations'].append(dict(f, what='interpolation: ' + f['kind'], witness_id='%s-%s' % (prop.lower(), json_key(f))))
+        return out
+    return extra
+
+
+EXTRA_TIERS['C15'] = _interp_extra('C15')
+EXTRA_TIERS['C16'] = _interp_extra('C16')
+GAPS['C15'] = ['every interpolation algorithm except the 1-d piecewise-linear one-point kernel (akima, lagrange2/3, cubic, scipy wrappers, 2-D/3-D fixed variants, the recursive n-d evaluation in InterpAlgorithm.evaluate): BOUNDED tier only',
+               'Interp1DSlinear is proved on a 4-point axis (all bracket indices enumerated; coordinates, table values and x symbolic) because its coefficient cache is a dict keyed by the bracket index',
+               'bracketing (InterpAlgorithm.bracket / searchsorted) that produces the bracket index', 'NaN coordinates (reals, assumption A2)',
+               'MetaModelStructuredComp / MetaModelSemiStructuredComp / SplineComp wiring: bounded tier only']
+GAPS['C16'] = ['derivatives of every algorithm except the 1-d piecewise-linear one-point kernel: BOUNDED tier only', 'd/dvalues (training gradients) and spline-mode gradients: BOUNDED tier only',
+               'requests for table gradients that raise (methods without d/dvalues support; akima with more than one table dimension) return no derivative and are outside the statement: counted in the evidence, not failures',
+               'points on cell boundaries (one-sided derivatives)']
